@@ -140,6 +140,26 @@ class Poly:
 
     __rmul__ = __mul__
 
+    def content(self):
+        """Split self = m * p with m a monomial (incl. rational factor) and p primitive:
+        p has no common atom power and its first term (canonical order) has coefficient 1."""
+        if not self.t:
+            return Poly.const(1), Poly()
+        keys = set()
+        for m in self.t:
+            keys |= {k for k, _ in m}
+        common = {}
+        for k in keys:
+            common[k] = min(dict(m).get(k, 0) for m in self.t)
+        mono = tuple(sorted((k, e) for k, e in common.items() if e != 0))
+        inv_mono = tuple((k, -e) for k, e in mono)
+        red = {}
+        for m, c in self.t.items():
+            red[_mono_mul(m, inv_mono)] = c
+        first = sorted(red.items(), key=lambda x: x[0])[0][1]
+        prim = Poly({m: c / first for m, c in red.items()})
+        return Poly({mono: first}), prim
+
     def inv(self):
         if len(self.t) != 1:
             raise NotMonomial(str(self))
